@@ -80,6 +80,23 @@ pub fn laws() -> Vec<Law> {
         l("monotone EW right", "%r% EW %p%", "%r% EW (%p% | %q%)", Rel::Sub, 3),
         l("monotone AW left", "%p% AW %r%", "(%p% | %q%) AW %r%", Rel::Sub, 3),
         l("monotone AW right", "%r% AW %p%", "%r% AW (%p% | %q%)", Rel::Sub, 3),
+        // the dualities read from the other side: a NEGATION directly above each temporal operator
+        l("not EX", "~ (EX %p%)", "AX (~ %p%)", Rel::Eq, 1),
+        l("not AX", "~ (AX %p%)", "EX (~ %p%)", Rel::Eq, 1),
+        l("not EF", "~ (EF %p%)", "AG (~ %p%)", Rel::Eq, 1),
+        l("not AG", "~ (AG %p%)", "EF (~ %p%)", Rel::Eq, 1),
+        l("not EG", "~ (EG %p%)", "AF (~ %p%)", Rel::Eq, 1),
+        l("not AF", "~ (AF %p%)", "EG (~ %p%)", Rel::Eq, 1),
+        l("not EU", "~ (%p% EU %q%)", "(~ %q%) AW ((~ %p%) & (~ %q%))", Rel::Eq, 2),
+        l("not AU", "~ (%p% AU %q%)", "(~ %q%) EW ((~ %p%) & (~ %q%))", Rel::Eq, 2),
+        l("not EW", "~ (%p% EW %q%)", "(~ %q%) AU ((~ %p%) & (~ %q%))", Rel::Eq, 2),
+        l("not AW", "~ (%p% AW %q%)", "(~ %q%) EU ((~ %p%) & (~ %q%))", Rel::Eq, 2),
+        l("excluded middle EW", "(~ (%p% EW %q%)) | (%p% EW %q%)", "True", Rel::Eq, 2),
+        l("excluded middle AW", "(~ (%p% AW %q%)) | (%p% AW %q%)", "True", Rel::Eq, 2),
+        l("excluded middle EU", "(~ (%p% EU %q%)) | (%p% EU %q%)", "True", Rel::Eq, 2),
+        l("excluded middle AU", "(~ (%p% AU %q%)) | (%p% AU %q%)", "True", Rel::Eq, 2),
+        l("non-contradiction EW", "(~ (%p% EW %q%)) & (%p% EW %q%)", "False", Rel::Eq, 2),
+        l("non-contradiction AW", "(~ (%p% AW %q%)) & (%p% AW %q%)", "False", Rel::Eq, 2),
         // the one-argument fixed-point laws and dualities with a COMPOUND argument (an operator directly above a connective)
         l("EF fixed point over |", "EF (%p% | %q%)", "(%p% | %q%) | EX (EF (%p% | %q%))", Rel::Eq, 2),
         l("EG fixed point over |", "EG (%p% | %q%)", "(%p% | %q%) & EX (EG (%p% | %q%))", Rel::Eq, 2),
@@ -586,6 +603,6 @@ pub fn run(tier: &str) -> Result<Report, String> {
     rep.distinct_nontrivial = rep.extra.get("law_instances_tiny").and_then(|v| v.as_u64()).unwrap_or(0) + big_total;
     rep.set("laws", json!(all.iter().map(|l| format!("{}: {} {} {}", l.name, l.lhs, if l.rel == Rel::Eq { "=" } else { "⊆" }, l.rhs)).collect::<Vec<_>>()));
     rep.sample(json!({"law": "AU fixed point", "network": "con2", "p": [5, 9], "q": [2, 0], "meaning": "per-colour state masks of the wild-card sets; both sides evaluated by the tool and compared as sets"}));
-    rep.rule = format!("{} laws (fixed-point equations, dualities, inclusions, monotonicity in every argument, steady states as self-loops) + 3 graph-library laws (EF = reach_backward, AG = trap_forward, EU = reach_bwd in the restricted graph), each instantiated with wild-card arguments (also: every one-argument law and the library laws on every one of the 256 state sets of 512 (quick: 128) three-variable networks built from a menu of 8 update functions per variable; on the tiny networks every law x first-argument set also with both sides submitted as one batch, in both orders, to model_check_multiple_extended_formulae_dirty): on the tiny networks {which:?} with EVERY coloured set as p (all pairs (p,q) when the network has <= 16 sets, or <= 256 in the thorough tier; otherwise q from a spread of 16, r from a spread of 4), anchored by the explicit-state oracle; on the bundled models {models:?} with a declared family (literals, conjunctions/disjunctions of two literals over the first 4 variables, each also cut by each half of the colour space, empty, unit, results of two formulae). distinct_nontrivial = number of law instances (distinct (law, argument tuple, network))", all.len());
+    rep.rule = format!("{} laws (fixed-point equations, dualities in both directions - a negation directly above every temporal operator -, excluded middle for the until operators, inclusions, monotonicity in every argument, steady states as self-loops) + 3 graph-library laws (EF = reach_backward, AG = trap_forward, EU = reach_bwd in the restricted graph), each instantiated with wild-card arguments (also: every one-argument law and the library laws on every one of the 256 state sets of 512 (quick: 128) three-variable networks built from a menu of 8 update functions per variable; on the tiny networks every law x first-argument set also with both sides submitted as one batch, in both orders, to model_check_multiple_extended_formulae_dirty): on the tiny networks {which:?} with EVERY coloured set as p (all pairs (p,q) when the network has <= 16 sets, or <= 256 in the thorough tier; otherwise q from a spread of 16, r from a spread of 4), anchored by the explicit-state oracle; on the bundled models {models:?} with a declared family (literals, conjunctions/disjunctions of two literals over the first 4 variables, each also cut by each half of the colour space, empty, unit, results of two formulae). distinct_nontrivial = number of law instances (distinct (law, argument tuple, network))", all.len());
     Ok(rep)
 }
